@@ -71,7 +71,14 @@ class AvroWriter(AbstractWriter):
         if self.desc != r._desc:
             raise Exception("Mixed record types")
 
-        self.writer.write(r._packdict())
+        data = r._packdict()
+        for value in data.values():
+            if isinstance(value, datetime):
+                # a timestamp is stored as its UTC instant: one without a UTC form (year 0 or 10000) could be written,
+                # but no Avro reader can turn it back into a datetime, which makes the whole file unreadable
+                value.astimezone(timezone.utc)
+
+        self.writer.write(data)
 
     def flush(self):
         # nothing to flush before the first record: the container header is written together with the first record
